@@ -128,7 +128,8 @@ class overlay_cpf:
             yield "fixed-slot-is-the-packed-height", maxrow - t - b == ph
             wantv = CTBF.spec_value(None, maxrow=maxrow, valign_type=old.valign_type, valign_amount=old.valign_amount, height_type="given",
                                     height_amount=ph, min_height=None, top=old.top, bottom=old.bottom)
-            yield "rows-are-the-filler-calculator-unless-clipped", implies(ph <= maxrow, both(t == wantv[0], b == wantv[1]))
+            yield "rows-are-the-filler-calculator-unless-clipped", both(t == wantv[0], implies(ph <= maxrow, b == wantv[1]))
+            yield "too-tall-is-clipped-at-the-bottom-only", implies(ph > maxrow, both(t == 0, b == maxrow - ph))
         elif k == "flow":
             # the statement: margins plus child exactly fill the available space -- the child being top_w as it is drawn,
             # i.e. at the width top_w_size hands it
@@ -139,7 +140,8 @@ class overlay_cpf:
             yield "flow-slot-is-the-childs-rows-as-drawn", maxrow - t - b == rows_drawn
             wantv = CTBF.spec_value(None, maxrow=maxrow, valign_type=old.valign_type, valign_amount=old.valign_amount, height_type="given",
                                     height_amount=rows_drawn, min_height=None, top=old.top, bottom=old.bottom)
-            yield "rows-are-the-filler-calculator-unless-clipped", implies(rows_drawn <= maxrow, both(t == wantv[0], b == wantv[1]))
+            yield "rows-are-the-filler-calculator-unless-clipped", both(t == wantv[0], implies(rows_drawn <= maxrow, b == wantv[1]))
+            yield "too-tall-is-clipped-at-the-bottom-only", implies(rows_drawn > maxrow, both(t == 0, b == maxrow - rows_drawn))
         else:
             wantv = CTBF.spec_value(None, maxrow=maxrow, valign_type=old.valign_type, valign_amount=old.valign_amount, height_type=old.height_type,
                                     height_amount=val(old.height_amount), min_height=old.min_height, top=old.top, bottom=old.bottom)
@@ -232,6 +234,13 @@ def _overlay_requires(s, a, focus):
     return both(overlay_wf(s), size_ok(a.size), overlay_fit(s, a.size, focus))
 
 
+def overlay_visible(s, size, focus):
+    """Something of top_w is drawn: the box is not empty and top_w is not handed a zero dimension."""
+    maxcol, maxrow = size
+    l, r, t, b, cs = overlay_geometry(s, size, focus)
+    return both(maxcol >= 1, maxrow >= 1, *[d != 0 for d in cs])
+
+
 @contract(OV + "Overlay.render", property=("C09", "C01", "C08"), inline=OINL, replayable=False)
 class overlay_render:
     self_shape = OVERLAY
@@ -240,7 +249,9 @@ class overlay_render:
     raises = ()
 
     def requires(s, a):
-        return _overlay_requires(s, a, a.focus)
+        # C01: every box size, clipped top widgets included; only a fixed top_w that packs to no rows is refused
+        # (OverlayError, see calculate_padding_filler)
+        return both(overlay_wf(s), size_ok(a.size), neg(_no_height(s, a)))
 
     def ensures(old, s, a, r):
         W = PROTOCOLS["Widget"]
@@ -248,13 +259,17 @@ class overlay_render:
         l, rr, t, b, cs = overlay_geometry(old, a.size, a.focus)
         yield "size", both(r.ncols == maxcol, r.nrows == maxrow)
         rc = calls("render")
+        # C08: the bottom widget is never on the focus path
+        yield "bottom-fills-the-box-unfocused", both(len(rc) >= 1, both(eq(rc[0][1], old.bottom_w), eq(rc[0][3]["size"], a.size), eq(rc[0][3]["focus"], False)) if rc else False)
+        if not overlay_visible(old, a.size, a.focus):
+            yield "nothing-of-top-w-to-draw", both(len(rc) == 1, is_none(r.cursor))
+            return
         yield "bottom-then-top-each-rendered-once", len(rc) == 2
         if len(rc) == 2:
-            # C08: the bottom widget is never on the focus path
-            yield "bottom-fills-the-box-unfocused", both(eq(rc[0][1], old.bottom_w), eq(rc[0][3]["size"], a.size), eq(rc[0][3]["focus"], False))
             yield "top-rendered-at-its-size", both(eq(rc[1][1], old.top_w), eq(rc[1][3]["size"], cs), eq(rc[1][3]["focus"], a.focus))
-        child = W.call_quiet(cur(), old.top_w, "render", dict(size=cs, focus=a.focus))
-        yield "cursor-is-top-ws-shifted-by-left-top", opt_eq_shift(r.cursor, child.cursor, l, t)
+        if overlay_fit(old, a.size, a.focus):
+            child = W.call_quiet(cur(), old.top_w, "render", dict(size=cs, focus=a.focus))
+            yield "cursor-is-top-ws-shifted-by-left-top", opt_eq_shift(r.cursor, child.cursor, l, t)
 
 
 @contract(OV + "Overlay.get_cursor_coords", property="C09", inline=OINL, replayable=False)
